@@ -384,6 +384,50 @@ def _raise_class(stmts: List[ast.stmt], caught: str, where: str) -> Dict[bool, s
     raise Unsupported(f"{where}: handler shape")
 
 
+_READBACK_TEST = "self._hint_write_landed(metadata_file)"
+# _hint_write_landed, modelled by hand in Model/FlipFault.v (XReadBack): pinned statement by statement
+_READBACK_GOLDEN = [
+    "try:\n    parsed = self._parse_hint_content(self.storage.read_file(self.HINT_PATH))\nexcept FileNotFoundError:\n    return False\n"
+    "except Exception as e:\n    raise AmbiguousCommitError(f'Version hint write was refused and could not be read back: {e}') from e",
+    "return parsed is not None and parsed[1] == metadata_file",
+]
+
+
+def _strip_readback(stmts: List[ast.stmt]) -> Tuple[List[ast.stmt], bool]:
+    """The arm that handles the store's REFUSAL of the conditional write may start with
+    `if self._hint_write_landed(metadata_file): return` (the write is read back before the refusal is called a conflict)."""
+    if stmts and isinstance(stmts[0], ast.If) and _u(stmts[0].test) == _READBACK_TEST:
+        if stmts[0].orelse or [_u(x) for x in stmts[0].body] != ["return"]:
+            raise Unsupported("_write_hint_at_commit_point: the read-back of a refused write does not simply `return` when the write landed")
+        return list(stmts[1:]), True
+    return list(stmts), False
+
+
+def _gen_readback(mm: ast.Module) -> bool:
+    """Does _write_hint_at_commit_point read the pointer back when the store refuses the conditional write?  If so the helper
+    is pinned: landed <=> the pointer's content is exactly OUR metadata file name."""
+    fn = find_function(mm, "_write_hint_at_commit_point", "MetadataManager")
+    found = False
+    for t in [n for n in ast.walk(fn) if isinstance(n, ast.Try)]:
+        for h in t.handlers:
+            _rest, rb = _strip_readback(h.body)
+            if rb:
+                if "CASConflictError" not in _handler_classes(h):
+                    raise Unsupported("_write_hint_at_commit_point: the pointer is read back in an arm that does not handle the store's refusal")
+                found = True
+    calls = [c for c in ast.walk(mm) if isinstance(c, ast.Call) and _cn(c) == "self._hint_write_landed"]
+    if len(calls) != (1 if found else 0):
+        raise Unsupported(f"_hint_write_landed is called {len(calls)} time(s) (expected: only by the refusal arm of _write_hint_at_commit_point)")
+    if found:
+        helper = find_function(mm, "_hint_write_landed", "MetadataManager")
+        if [a.arg for a in helper.args.args] != ["self", "metadata_file"]:
+            raise Unsupported("_hint_write_landed parameters changed")
+        got = [_u(x) for x in strip_docstring(helper.body)]
+        if got != _READBACK_GOLDEN:
+            raise Unsupported(f"_hint_write_landed changed (golden AST): {got}")
+    return found
+
+
 def _gen_flip(mm: ast.Module) -> Dict[Tuple[bool, bool, str], str]:
     fn = find_function(mm, "_write_hint_at_commit_point", "MetadataManager")
     params = [a.arg for a in fn.args.args]
@@ -423,7 +467,8 @@ def _gen_flip(mm: ast.Module) -> Dict[Tuple[bool, bool, str], str]:
                     raise Unsupported(f"_write_hint_at_commit_point: handler for {names}")
             if h is None:
                 raise Unsupported(f"_write_hint_at_commit_point: no handler classifies {err} on cas={cas}")
-            rc = _raise_class(h.body, "XOther", "_write_hint_at_commit_point")
+            hbody, _rb = _strip_readback(h.body) if (cas and err == "FEPrecondition") else (h.body, False)
+            rc = _raise_class(hbody, "XOther", "_write_hint_at_commit_point")
             for atomic in (True, False):
                 out[(cas, atomic, err)] = rc[atomic]
     return out
@@ -615,6 +660,7 @@ def gen(src: str) -> str:
     tx = parse_module(src, "transaction.py")
     c = _gen_commit(mm)
     f = _gen_flip(mm)
+    rb = _gen_readback(mm)
     t = _gen_tx(tx)
     cr = _gen_create(mm)
     conj = " && ".join(f"(cur_{STAMP_FIELDS[x]} =? base_{STAMP_FIELDS[x]})" for x in c["validated"]) or "true"
@@ -644,6 +690,12 @@ def gen(src: str) -> str:
         "  match cas, atomic_write_failures, err with\n" +
         "\n".join(f"  | {_b(k[0])}, {_b(k[1])}, {k[2]} => {v}" for k, v in sorted(f.items(), key=lambda kv: (not kv[0][0], not kv[0][1], kv[0][2]))) +
         "\n  | false, _, FEPrecondition => XOther    (* no conditional write is issued: the store cannot refuse one *)\n  end.",
+        "",
+        "(* _write_hint_at_commit_point: is the pointer read back when the store REFUSES the conditional write, before the refusal is",
+        "   called a conflict?  (a re-sent request is refused because its first copy landed)  _hint_write_landed: our write landed iff the",
+        "   pointer's content is exactly our metadata file name (names_ours) *)",
+        f"Definition gen_refused_reads_back : bool := {_b(rb)}.",
+        "Definition gen_write_landed (names_ours : bool) : bool := " + ("names_ours." if rb else "false."),
         "",
         "(* Transaction.commit *)",
         f"Definition gen_max_retries : nat := {t['max_retries']}%nat.",
